@@ -13,7 +13,7 @@
 //   2 (schedule) obs::sched_restart (engine/obs_restart.hpp) of the restarted Schedule equals that of the
 //                original Schedule at n and every later report step.
 //
-// Case string (= --replay argument):  M:<18 model digits, '.'-separated> [H:<whistctl.X1role.X1event.eventblock>] [R:<final-only>:<body.step,...>] U:<0..3> F:<0|1> X:<0|1> D:<0|1> N:<1..3>
+// Case string (= --replay argument):  M:<18 model digits, '.'-separated> [H:<whistctl.X1role.X1event.eventblock>] [R:<final-only>:<body.step,...>] [L:<maxwl>:<placement>:<op,op,...>] U:<0..3> F:<0|1> X:<0|1> D:<0|1> N:<1..3>
 #include "vf.hpp"
 #include "canon.hpp"
 #include "obs.hpp"
@@ -78,14 +78,19 @@ struct Model {
     // final restart file is written (no intermediate writes that fill the lazily built caches)
     bool rt_on = false; int rt_final_only = 0; std::vector<std::pair<int, int>> rt;
     std::string rtstr() const { std::string s = std::to_string(rt_final_only) + ":"; for (size_t i = 0; i < rt.size(); ++i) s += (i ? "," : "") + std::to_string(rt[i].first) + "." + std::to_string(rt[i].second); return s; }
+    // Well-list history (part D): WLIST operations on lists *A,*B,*C over wells P1,P2,P3.  An operation is "<N|A|D|M><list><well digits>"
+    // (NEW/ADD/DEL/MOV), e.g. "NA12" = WLIST '*A' NEW P1 P2.  wl_place 0: operation i goes to block min(i,2), restart step n = min(len,3);
+    // 1: all operations in block 0, n = 1.  wl_max = WELLDIMS item 11 (max well lists per well).
+    bool wl_on = false; int wl_max = 1, wl_place = 0; std::vector<std::string> wl_ops;
+    std::string wlstr() const { std::string s = std::to_string(wl_max) + ":" + std::to_string(wl_place) + ":"; for (size_t i = 0; i < wl_ops.size(); ++i) s += (i ? "," : "") + wl_ops[i]; return s; }
     int x1_water = 0;     // replay-only (token W:1): X1 declared with WELSPECS preferred phase WATER instead of OIL, see run.assumptions
     std::string hstr() const { return std::to_string(h[0]) + "." + std::to_string(h[1]) + "." + std::to_string(h[2]) + "." + std::to_string(h[3]); }
     std::string str() const { std::string s; for (int i = 0; i < NDIM; ++i) s += (i ? "." : "") + std::to_string(d[i]); return s; }
-    std::string describe() const { std::string s; for (int i = 0; i < NDIM; ++i) if (d[i]) s += std::string(s.empty() ? "" : ",") + DIM_NAME[i] + "=" + std::to_string(d[i]); if (rt_on) s += std::string(s.empty() ? "" : ",") + "runtime=" + rtstr(); if (h[0] || h[1] || h[2] || h[3]) s += std::string(s.empty() ? "" : ",") + "whistctl/X1role/X1event/eventblock=" + hstr(); return s.empty() ? "default" : s; }
+    std::string describe() const { std::string s; for (int i = 0; i < NDIM; ++i) if (d[i]) s += std::string(s.empty() ? "" : ",") + DIM_NAME[i] + "=" + std::to_string(d[i]); if (wl_on) s += std::string(s.empty() ? "" : ",") + "wlist=" + wlstr(); if (rt_on) s += std::string(s.empty() ? "" : ",") + "runtime=" + rtstr(); if (h[0] || h[1] || h[2] || h[3]) s += std::string(s.empty() ? "" : ",") + "whistctl/X1role/X1event/eventblock=" + hstr(); return s.empty() ? "default" : s; }
 };
 struct Case {
     Model m; int us = 0, fmt = 0, unif = 1, dbl = 0, n = 2;
-    std::string str() const { return "M:" + m.str() + " H:" + m.hstr() + (m.x1_water ? " W:1" : "") + (m.rt_on ? " R:" + m.rtstr() : "") + " U:" + std::to_string(us) + " F:" + std::to_string(fmt) + " X:" + std::to_string(unif) + " D:" + std::to_string(dbl) + " N:" + std::to_string(n); }
+    std::string str() const { return "M:" + m.str() + " H:" + m.hstr() + (m.x1_water ? " W:1" : "") + (m.rt_on ? " R:" + m.rtstr() : "") + (m.wl_on ? " L:" + m.wlstr() : "") + " U:" + std::to_string(us) + " F:" + std::to_string(fmt) + " X:" + std::to_string(unif) + " D:" + std::to_string(dbl) + " N:" + std::to_string(n); }
     static Case parse(const std::string& s) {
         Case c; std::istringstream ss(s); std::string tok;
         while (ss >> tok) {
@@ -94,6 +99,11 @@ struct Case {
             if (k == "M") { std::istringstream vs(v); std::string t; int i = 0; while (std::getline(vs, t, '.') && i < NDIM) c.m.d[i++] = std::atoi(t.c_str()); }
             else if (k == "H") { std::istringstream vs(v); std::string t; int i = 0; while (std::getline(vs, t, '.') && i < 4) c.m.h[i++] = std::atoi(t.c_str()); }
             else if (k == "W") c.m.x1_water = std::atoi(v.c_str());
+            else if (k == "L") {
+                c.m.wl_on = true; c.m.d[D_UDQ] = 1;
+                std::istringstream vs(v); std::string t; int i = 0;
+                while (std::getline(vs, t, i < 2 ? ':' : ',')) { if (i == 0) c.m.wl_max = std::atoi(t.c_str()); else if (i == 1) c.m.wl_place = std::atoi(t.c_str()); else if (!t.empty()) c.m.wl_ops.push_back(t); ++i; }
+            }
             else if (k == "R") {
                 c.m.rt_on = true; c.m.rt_final_only = std::atoi(v.c_str());
                 auto q = v.find(':'); std::istringstream vs(q == std::string::npos ? "" : v.substr(q + 1)); std::string t;
@@ -107,15 +117,35 @@ struct Case {
     }
 };
 
+// Reference model of well lists: ordered members per list (NEW replaces, ADD appends, DEL removes, MOV removes everywhere then appends)
+struct WlModel {
+    std::map<char, std::vector<std::string>> lists; int max_membership = 0;
+    bool exists(char l) const { return lists.count(l) > 0; }
+    void apply(const std::string& op) {
+        const char a = op[0], l = op[1]; std::vector<std::string> ws; for (size_t i = 2; i < op.size(); ++i) ws.push_back(std::string("P") + op[i]);
+        auto rm = [](std::vector<std::string>& v, const std::string& w) { v.erase(std::remove(v.begin(), v.end(), w), v.end()); };
+        if (a == 'N') lists[l] = ws;
+        else if (a == 'A') { for (auto& w : ws) if (std::find(lists[l].begin(), lists[l].end(), w) == lists[l].end()) lists[l].push_back(w); }
+        else if (a == 'D') { for (auto& w : ws) rm(lists[l], w); }
+        else if (a == 'M') { for (auto& w : ws) { for (auto& kv : lists) rm(kv.second, w); lists[l].push_back(w); } }
+        for (const char* w : {"P1", "P2", "P3"}) { int c = 0; for (auto& kv : lists) if (std::find(kv.second.begin(), kv.second.end(), std::string(w)) != kv.second.end()) ++c; max_membership = std::max(max_membership, c); }
+    }
+};
+static std::string wl_keyword(const std::string& op) {
+    const char* act = op[0] == 'N' ? "NEW" : op[0] == 'A' ? "ADD" : op[0] == 'D' ? "DEL" : "MOV";
+    std::string s = std::string("WLIST\n '*") + op[1] + "' " + act; for (size_t i = 2; i < op.size(); ++i) s += std::string(" P") + op[i];
+    return s + " /\n/\n";
+}
+
 static const int NSTEPS = 4;                         // DATES keywords => report steps 0..4
 static const char* MONTHS[] = {"FEB", "MAR", "APR", "MAY"};
 
-static std::string head_text(int us, int fmt, int unif, int restart_n) {
+static std::string head_text(int us, int fmt, int unif, int restart_n, int maxwl = 1) {
     std::string s = "RUNSPEC\nTITLE\n C05 restart model\nDIMENS\n 3 3 3 /\nOIL\nWATER\nGAS\nDISGAS\n";
     s += std::string(USYS[us]) + "\n";
     if (fmt) s += "FMTOUT\nFMTIN\n";
     if (unif) s += "UNIFOUT\nUNIFIN\n";
-    s += "TABDIMS\n 1 1 20 20 3 20 /\nEQLDIMS\n 1 /\nREGDIMS\n 3 /\nWELLDIMS\n 6 4 4 6 /\nWSEGDIMS\n 2 8 3 /\n"
+    s += "TABDIMS\n 1 1 20 20 3 20 /\nEQLDIMS\n 1 /\nREGDIMS\n 3 /\nWELLDIMS\n 6 4 4 6 " + std::string(maxwl > 1 ? "6* " + std::to_string(maxwl) + " " : "") + "/\nWSEGDIMS\n 2 8 3 /\n"
          "UDQDIMS\n 10 10 4 4 4 4 4 4 4 4 4 /\nUDADIMS\n 10 1* 10 /\nACTDIMS\n 8 10 /\nNETWORK\n 5 4 /\nSTART\n 1 JAN 2020 /\n"
          "GRID\nDX\n 27*100 /\nDY\n 27*100 /\nDZ\n 27*10 /\nTOPS\n 9*2000 /\nPORO\n 27*0.3 /\nPERMX\n 27*100 /\nPERMY\n 27*50 /\nPERMZ\n 27*10 /\n"
          "ACTNUM\n 13*1 0 13*1 /\nPROPS\n"
@@ -174,7 +204,13 @@ static std::string schedule_text(const Model& M, int restart_n) {
     }
     if (d[D_EFAC] == 0) s += "WEFAC\n 'P1' 0.8 /\n/\nGEFAC\n 'G1' 0.9 /\n/\n";
     else if (d[D_EFAC] == 2) s += "WEFAC\n 'P1' 0.5 /\n 'I1' 0.75 /\n/\nGEFAC\n 'G1' 0.25 /\n 'G3' 0.5 /\n/\n";
-    if (d[D_WLIST] == 0) s += "WLIST\n '*L1' NEW P1 P2 /\n '*L2' NEW I1 /\n/\n";
+    if (d[D_WLIST] == 0 && !M.wl_on) s += "WLIST\n '*L1' NEW P1 P2 /\n '*L2' NEW I1 /\n/\n";
+    auto wl_block = [&](int blk) -> std::string {        // part D: the WLIST operations of this block
+        std::string t; if (!M.wl_on) return t;
+        for (size_t i = 0; i < M.wl_ops.size(); ++i) if ((M.wl_place == 1 ? 0 : (int)std::min<size_t>(i, 2)) == blk) t += wl_keyword(M.wl_ops[i]);
+        return t;
+    };
+    s += wl_block(0);
     if (d[D_UDQ] != 2) s += "UDQ\n ASSIGN WUOR 95 /\n ASSIGN FUX 3.5 /\n ASSIGN FUGO 1000 /\n ASSIGN WUIR 200 /\n DEFINE GUY GOPR * 2 /\n DEFINE FUY FOPR * 2 + 1 /\n DEFINE WUZ WOPR + WWPR /\n UNITS WUOR SM3/DAY /\n/\n";
     if (M.rt_on) {
         s += "UDQ\n ASSIGN WUO2 77 /\n ASSIGN WUI2 180 /\n ASSIGN WUWR 60 /\n/\n";
@@ -215,17 +251,21 @@ static std::string schedule_text(const Model& M, int restart_n) {
     if (d[D_CSHUT] == 0) s += "WELOPEN\n 'P1' SHUT 0 0 2 /\n/\n";
     if (d[D_P1ST] == 1) s += "WELOPEN\n 'P1' SHUT /\n/\n";
     if (d[D_P1ST] == 2) s += "WELOPEN\n 'P1' STOP /\n/\n";
+    s += wl_block(1);
     s += std::string("DATES\n 1 ") + MONTHS[1] + " 2020 /\n/\n";
     // ---- block 2
     s += "WELSPECS\n 'I2' 'G3' 1 3 1* GAS /\n/\nCOMPDAT\n 'I2' 1 3 3 3 OPEN 1* 1* 0.2 /\n/\nWCONINJE\n 'I2' GAS OPEN RATE 30000 1* 480 /\n/\n";
     s += "WELOPEN\n 'P3' SHUT /\n/\n";
-    if (d[D_WLIST] == 0) s += "WLIST\n '*L1' ADD P3 /\n/\n";
+    if (d[D_WLIST] == 0 && !M.wl_on) s += "WLIST\n '*L1' ADD P3 /\n/\n";
+    s += wl_block(2);
     s += "WELTARG\n 'P2' ORAT 66 /\n/\n";
     if (h[3] == 1) s += x1_event();
     s += std::string("DATES\n 1 ") + MONTHS[2] + " 2020 /\n/\n";
     // ---- block 3
     s += "WELOPEN\n 'P3' OPEN /\n/\n";
     if (h[3] == 0) s += x1_event();
+    WlModel wlm; if (M.wl_on) for (const auto& op : M.wl_ops) wlm.apply(op);
+    if (M.wl_on) { int i = 0; for (const auto& kv : wlm.lists) { if (!kv.second.empty()) s += std::string("WELTARG\n '*") + kv.first + "' ORAT " + std::to_string(61 + 4 * i) + " /\n/\n"; ++i; } }
     if (d[D_TREE] == 1) s += "GRUPTREE\n 'G3' 'FIELD' /\n/\n";
     if (d[D_P1ST] != 0) s += "WELOPEN\n 'P1' OPEN /\n/\n";
     if (d[D_CSHUT] == 0) s += "WELOPEN\n 'P1' OPEN 0 0 2 /\n/\n";
@@ -234,6 +274,7 @@ static std::string schedule_text(const Model& M, int restart_n) {
     s += std::string("DATES\n 1 ") + MONTHS[3] + " 2020 /\n/\n";
     // ---- block 4
     s += "WCONPROD\n 'P2' OPEN LRAT 70 2* 140 1* 45 /\n/\nWELTARG\n 'I1' BHP 420 /\n/\n";
+    if (M.wl_on) { char last = 0; for (const auto& kv : wlm.lists) if (!kv.second.empty()) last = kv.first; if (last) s += std::string("WELOPEN\n '*") + last + "' SHUT /\n/\n"; }
     s += "END\n";
     return s;
 }
@@ -356,11 +397,11 @@ static double extra_value(const ExtraDef& a, int i, int n) { return a.base + a.i
 
 // ------------------------------------------------------------------ caches ---
 static std::map<int, std::unique_ptr<EclipseState>> g_es;             // base EclipseState per (us, fmt, unif, restart_n)
-static const EclipseState& es_for(int us, int fmt, int unif, int rn) {
-    int key = ((us * 2 + fmt) * 2 + unif) * 8 + rn;
+static const EclipseState& es_for(int us, int fmt, int unif, int rn, int maxwl = 1) {
+    int key = (((us * 2 + fmt) * 2 + unif) * 8 + rn) * 4 + maxwl;
     auto& p = g_es[key];
     if (!p) {
-        auto d = g_parser->parseString(head_text(us, fmt, unif, rn) + "SCHEDULE\nEND\n");
+        auto d = g_parser->parseString(head_text(us, fmt, unif, rn, maxwl) + "SCHEDULE\nEND\n");
         p = std::make_unique<EclipseState>(d);
         p->getIOConfig().setBaseName("C05");
         p->getIOConfig().setOutputDir(".");
@@ -405,13 +446,29 @@ static Outcome run_case(const Case& c) {
     set_tolerances(c.fmt != 0);
     for (const auto& e : fs::directory_iterator(".")) { std::error_code ec; fs::remove_all(e.path(), ec); }
     std::unique_ptr<Schedule> sched, rsched;
+    bool wl_slots_inconsistent = false;
     try {
         // ------------------------------------------------ original run up to report step n
         stage = "original-schedule";
-        const EclipseState& es = es_for(c.us, c.fmt, c.unif, 0);
-        const auto deck = g_parser->parseString(head_text(c.us, c.fmt, c.unif, 0) + schedule_text(M, 0));
+        const int maxwl = M.wl_on ? M.wl_max : 1;
+        const EclipseState& es = es_for(c.us, c.fmt, c.unif, 0, maxwl);
+        const auto deck = g_parser->parseString(head_text(c.us, c.fmt, c.unif, 0, maxwl) + schedule_text(M, 0));
         sched = std::make_unique<Schedule>(deck, es, g_python);
         if ((int)sched->size() != NSTEPS + 1) throw std::logic_error("model has " + std::to_string(sched->size()) + " report steps");
+        {
+            // Defect discriminator: in the ORIGINAL schedule state the file describes, a well is a member of a list that is missing
+            // from its per-well slot table (WListManager::getWListNames) - the table the restart writer walks.  (delWListWell
+            // decrements the slot counter again for a well that was already dropped from the list by NEW, and clears the table.)
+            const auto& wl = (*sched)[n - 1].wlist_manager.get();
+            for (const auto& wn : sched->wellNames(n - 1)) for (const char* ln : {"*L1", "*L2", "*L3", "*A", "*B", "*C"}) {
+                if (!wl.hasList(ln)) continue;
+                const auto ws = wl.getList(ln).wells();
+                if (std::find(ws.begin(), ws.end(), wn) == ws.end()) continue;
+                bool in_table = false;
+                if (wl.hasWList(wn)) { const auto& t = wl.getWListNames(wn); in_table = std::find(t.begin(), t.end(), std::string(ln)) != t.end(); }
+                if (!in_table) wl_slots_inconsistent = true;
+            }
+        }
         Action::State astate;          // the record as it stands "now"; runs are added in time order below
         const bool action_runs = (M.d[D_ACT] == 0 || M.d[D_ACT] == 3) && n >= 2;
         const auto a1_match = Action::Result{true}.wells(std::vector<std::string>{"P1"});
@@ -464,8 +521,8 @@ static Outcome run_case(const Case& c) {
         }
         // ------------------------------------------------ restarted run
         stage = "restart-deck";
-        const EclipseState& res = es_for(c.us, c.fmt, c.unif, n);
-        const auto rdeck = g_parser->parseString(head_text(c.us, c.fmt, c.unif, n) + schedule_text(M, n));
+        const EclipseState& res = es_for(c.us, c.fmt, c.unif, n, maxwl);
+        const auto rdeck = g_parser->parseString(head_text(c.us, c.fmt, c.unif, n, maxwl) + schedule_text(M, n));
         const auto& init = res.getInitConfig();
         const auto fname = res.getIOConfig().getRestartFileName(init.getRestartRootName(), init.getRestartStep(), false);
         if (!fs::exists(fname)) { fail(o, "save:no-restart-file", "writeTimeStep(" + std::to_string(n) + ") produced no file " + fname); return o; }
@@ -703,6 +760,17 @@ static Outcome run_case(const Case& c) {
         std::string msg = e.what();
         fail(o, "throws:" + stage, "exception in stage " + stage + ": " + msg.substr(0, 300));
     }
+    if (wl_slots_inconsistent) {
+        // one defect, one key: the membership lost through the slot table and everything that follows from it
+        std::vector<Failure> kept; bool have = false;
+        for (auto& f : o.fails) {
+            auto starts = [&](const char* p) { return f.id.compare(0, std::strlen(p), p) == 0; };
+            if (starts("sched:wlist.members") || starts("sched:wlist.of_well") || starts("sched:ctl.") || starts("sched:well.status") || starts("throws:restarted-schedule")) {
+                if (!have) { kept.push_back({"sched:wlist:slot-table-lost-member", f.id + " - " + f.what}); have = true; }
+            } else kept.push_back(f);
+        }
+        o.fails = std::move(kept);
+    }
     return o;
 }
 
@@ -759,6 +827,9 @@ int main(int argc, char** argv) {
                 "x later event on X1 {none, WCONHIST ORAT, WCONHIST RESV, WCONINJH, WCONPROD LRAT} x restart step n{1,2,3}" + std::string(run.thorough() ? " x event in block {3,2} x 4 unit systems x FMTOUT{0,1}" : " (event in block 3, METRIC, unformatted unified)") + ", same two oracles; "
                 "PART C (run-time history on one Schedule object, default model + ACTIONX B1..B6 {WCONPROD number for a UDA, WCONPROD UDA for a UDA, WCONINJE UDA for a UDA, WELTARG number on a UDA well, WELOPEN SHUT, WCONPROD adding two UDAs}): "
                 "every sequence of 1.." + std::string(run.thorough() ? "3" : "2") + " Schedule::applyAction calls (body, report step < n, steps non-decreasing) interleaved with the restart writes of every report step x {all writes, final write only} x n{2,3}" + std::string(run.thorough() ? " x {METRIC,FIELD}" : "") + "; the reference is the same Schedule object after these calls; "
+                "PART D (well-list histories, default model without UDAs): every sequence of 1.." + std::string(run.thorough() ? "3 WLIST operations over lists *A,*B,*C / wells P1,P2,P3 and 1..4 over *A,*B / P1,P2,P3" : "3 WLIST operations over lists *A,*B / wells P1,P2") +
+                " from {NEW {P1,P2}, NEW {P2}, [NEW {P3,P1}], ADD w, DEL w, MOV w} per list (first operation NEW on *A, no ADD/DEL/MOV on an unknown list) x placement {one operation per block with n = min(len,3), all in block 0 with n = 1} x WELLDIMS item 11 in {1,2,3} >= largest membership" + std::string(run.quick() ? " (quick: smallest legal value and 3)" : "") +
+                "; after the restart step WELTARG '*L' ORAT through every non-empty list (block 3) and WELOPEN '*L' SHUT through the last one (block 4); compared: members and order of every list, lists of every well, and the controls/status of the wells; "
                 "oracle 2: obs::sched_restart query list equal between Schedule(deck) and Schedule(deck+RESTART+SKIPREST, rst_state) at n..4 (REAL-stored quantities to 1.2e-7 rel)";
     run.assumptions = {
         "a restart file written at report step n describes schedule state n-1 (sim_step); 'flowing well' = Schedule status OPEN in that state",
@@ -843,6 +914,58 @@ int main(int argc, char** argv) {
             }
         }
     }
+    // ---- part D: well-list histories
+    uint64_t wmodels = 0;
+    {
+        struct Alpha { std::string lists, wells; int maxlen; };
+        std::vector<Alpha> alphas;
+        if (run.thorough()) { alphas.push_back({"ABC", "123", 3}); alphas.push_back({"AB", "123", 4}); }
+        else alphas.push_back({"AB", "12", 3});
+        std::set<std::string> done;                        // a history reachable in two alphabets is run once
+        for (const auto& al : alphas) {
+            std::vector<std::string> sym;                  // per list: NEW {P1,P2}, NEW {P2}, [NEW {P3,P1}], ADD w, DEL w, MOV w
+            for (char l : al.lists) {
+                sym.push_back(std::string("N") + l + "12"); sym.push_back(std::string("N") + l + "2");
+                if (al.wells.size() > 2) sym.push_back(std::string("N") + l + "31");
+                for (char a : std::string("ADM")) for (char w : al.wells) sym.push_back(std::string(1, a) + l + std::string(1, w));
+            }
+            std::vector<std::vector<std::string>> cur = {{}};
+            for (int len = 1; len <= al.maxlen && !stop; ++len) {
+                std::vector<std::vector<std::string>> nxt;
+                for (const auto& q : cur) {
+                    WlModel m; for (const auto& op : q) m.apply(op);
+                    for (const auto& op : sym) {
+                        if (q.empty() && (op[0] != 'N' || op[1] != 'A')) continue;      // list names are interchangeable: start with NEW on *A
+                        if (op[0] != 'N' && !m.exists(op[1])) continue;                  // the library rejects ADD/DEL/MOV on an unknown list
+                        auto q2 = q; q2.push_back(op); nxt.push_back(q2);
+                    }
+                }
+                for (const auto& q : nxt) {
+                    WlModel m; for (const auto& op : q) m.apply(op);
+                    std::string id; for (auto& op : q) id += op + ",";
+                    if (!done.insert(id).second) continue;
+                    ++wmodels;
+                    for (int place = 0; place < 2; ++place) {
+                        if (place == 1 && q.size() == 1) continue;                       // identical to placement 0
+                        for (int mw = 1; mw <= 3; ++mw) {
+                            if (mw < m.max_membership) continue;                         // WELLDIMS item 11 must cover the largest membership
+                            if (run.quick() && !(mw == std::max(m.max_membership, 1) || mw == 3)) continue;
+                            if (!run.mine()) continue;
+                            if (run.timed_out()) { stop = true; break; }
+                            Case c; c.m.wl_on = true; c.m.d[D_UDQ] = 1; c.m.wl_ops = q; c.m.wl_place = place; c.m.wl_max = mw;
+                            c.us = 0; c.fmt = 0; c.unif = 1; c.dbl = 0; c.n = place == 1 ? 1 : (int)std::min<size_t>(q.size(), 3);
+                            judge(c);
+                            if (run.samples.size() < 9 && q.size() == 3 && q[2][0] == 'D' && mw == 2) run.sample_str(c.str() + "  (" + c.m.describe() + ")");
+                        }
+                        if (stop) break;
+                    }
+                    if (stop) break;
+                }
+                cur = std::move(nxt);
+            }
+        }
+    }
+    if (run.shard == 0) run.count("wlist_history_models", (long long)wmodels);
     if (run.shard == 0) run.count("runtime_history_models", (long long)rmodels);
     if (run.shard == 0) run.count("history_control_models", (long long)hmodels);
     if (run.shard == 0) run.count("models", (long long)models);
